@@ -273,7 +273,100 @@ def gen_specs_extra(rng, tier):
                       for _ in range(2)]
             specs.append(dict(problem="P5", cutmode=0, ecut=1000.0, seed=rng.randrange(1, 10 ** 6),
                               slots=slots, capacity=4096, stack=stack, kill_at=-1, max_iters=600,
-                              track_order=order, prims=prims))
+                              track_order=order, anti_at_rest=True, prims=prims))
+    return specs
+
+
+def gen_specs_msc(rng, tier):
+    """P4 (real Urban MSC) in the regime where the MSC true-path limit collapses to its per-volume
+    minimum: MSC table down to 1 keV with a small cross section (transport MFP >= range), electrons /
+    positrons of a few keV started within ~limit_min of the inner box's faces (or deep inside),
+    and a physics limit (fixed step limiter / small min_range) shorter than that minimum: the
+    stream clause "step <= pre-step limit" then covers the limiter's early-return ordering"""
+    specs = []
+    nrep = 1 if tier == "quick" else 4
+    for rep in range(nrep):
+        for k in range(4):
+            xs = rng.choice([5e-3, 2e-3, 1e-2])
+            fixed = [3e-4, 1e-4, 0.0, 5e-4][k]
+            prims = []
+            for i in range(10):
+                pid = rng.choice([0, 0, 1])
+                E = 10 ** rng.uniform(-2.6, -1.6)            # 2.5 .. 25 keV
+                ax = rng.randrange(3)
+                sgn = rng.choice([-1.0, 1.0])
+                pos = [rng.uniform(-4.0, 4.0) for _ in range(3)]
+                c = rng.random()
+                if c < 0.7:                                   # hugging a face of the inner box (|x| = 5)
+                    pos[ax] = sgn * (5.0 - 10 ** rng.uniform(-6, -3))
+                d = unit(rng)
+                if c < 0.35:                                  # ... flying along / away from it
+                    d[ax] = -sgn * abs(d[ax]) * rng.choice([1.0, 0.05])
+                    nrm = math.sqrt(sum(x * x for x in d)); d = [x / nrm for x in d]
+                prims.append((pid, E, pos, d, i % 2))
+            sp = dict(problem="P4", cutmode=0, ecut=1000.0, seed=rng.randrange(1, 10 ** 6), slots=rng.choice([4, 16]),
+                      capacity=4096, stack=1.0, kill_at=-1, max_iters=400, track_order=rng.choice([0, 1]), msc=True,
+                      truncated_ok=True, msc_emin=1e-3, msc_xs=xs, prims=prims)
+            if fixed > 0:
+                sp["fixed_limit"] = fixed
+            else:
+                sp["min_range"] = 1e-4
+            specs.append(sp)
+    return specs
+
+
+def gen_specs_sweep(rng, tier):
+    """the property quantifies over every configuration: the loop problems again under a small
+    sweep of PhysicsOptions (one cheap run per option setting): disable_integral_xs,
+    linear_loss_limit, lowest_electron_energy, min_range, fixed_step_limiter,
+    secondary_stack_factor"""
+    specs = []
+    nrep = 1 if tier == "quick" else 4
+    sweeps = [dict(disable_integral_xs=1), dict(linear_loss_limit=rng.choice([0.05, 0.2, 0.001])),
+              dict(lowest=rng.choice([0.01, 0.05, 1e-4])), dict(min_range=rng.choice([1e-2, 0.1, 1e-4])),
+              dict(fixed_limit=rng.choice([0.05, 0.5])),
+              dict(disable_integral_xs=1, lowest=0.01, linear_loss_limit=0.05, stack=rng.choice([0.5, 1.0]))]
+    for rep in range(nrep):
+        for k, opt in enumerate(sweeps):
+            # ---- P5: positrons stop and must annihilate at rest under every option setting
+            slots = rng.choice([2, 4, 8])
+            n = 2 * slots
+            E = rng.choice([1.0, 0.5, 2.0])
+            dz = rng.choice([1.0, -1.0])
+            prims = [(1, E, [-3.0 + 6.0 * i / n, rng.uniform(-2, 2), 0.0], [0.0, 0.0, dz], i % 2) for i in range(n)]
+            prims += [(0, 10 ** rng.uniform(-0.5, 0.3), [rng.uniform(-3, 3) for _ in range(3)], unit(rng), 0)
+                      for _ in range(2)]
+            sp = dict(problem="P5", cutmode=0, ecut=1000.0, seed=rng.randrange(1, 10 ** 6), slots=slots,
+                      capacity=4096, stack=3.0, kill_at=-1, max_iters=3000 if "fixed_limit" in opt else 600,
+                      track_order=rng.choice([0, 1]), anti_at_rest=True, prims=prims)
+            sp.update(opt)
+            if sp["stack"] * sp["slots"] < 4:
+                # an annihilation needs room for its two gammas, otherwise it can never succeed and the
+                # stopped positron retries for ever (not a defect: the stack is simply too small)
+                sp["slots"] = 8
+            specs.append(sp)
+            # ---- P3 (Compton + pair production) under the same option
+            if k in (0, 1, 2, 5):
+                prims = [(0, rng.choice([10.0, 10 ** rng.uniform(0.5, 2.5)]), [rng.uniform(-4.5, 4.5) for _ in range(3)],
+                          unit(rng), i % 2) for i in range(8)]
+                sp = dict(problem="P3", cutmode=rng.choice([2, 1]), ecut=rng.choice([0.5, 2.0]),
+                          seed=rng.randrange(1, 10 ** 6), slots=rng.choice([7, 16]), capacity=4096, stack=3.0,
+                          kill_at=-1, max_iters=20000, track_order=rng.choice([0, 1]), prims=prims)
+                sp.update(opt)
+                specs.append(sp)
+            # ---- P2 (mock continuous loss, range kills, boundaries) under the same option
+            if k in (0, 1, 3):
+                prims = []
+                for i in range(6):
+                    pid = rng.choice([0, 3, 3, 4])
+                    u = unit(rng)
+                    rad = rng.choice([0.5, 2.0, 4.0, 8.0]) * rng.uniform(0.2, 0.95)
+                    lo, hi = {0: (-3, 1.9), 3: (-3, 0.9), 4: (-2, 2)}[pid]
+                    prims.append((pid, 10 ** rng.uniform(lo, hi), [rad * x for x in u], unit(rng), 0))
+                sp = dict(problem="P2", cutmode=0, ecut=1000.0, seed=rng.randrange(1, 10 ** 6), slots=rng.choice([2, 7]),
+                          capacity=4096, stack=1.0, kill_at=-1, max_iters=2000, prims=prims)
+                sp.update(opt)
+                specs.append(sp)
     return specs
 
 
@@ -282,9 +375,11 @@ def spec_line(s):
     p = []
     for pid, E, pos, d, evt in s["prims"]:
         p.append("%d %s %s %s %d" % (pid, f(E), " ".join(f(x) for x in pos), " ".join(f(x) for x in d), evt))
-    return "run %s %d %s %d %d %d %s %d %d %d %s %d %s\n" % (
+    return "run %s %d %s %d %d %d %s %d %d %d %s %d %s %s %s %s %s %d %s\n" % (
         s["problem"], s["cutmode"], f(s["ecut"]), s["seed"], s["slots"], s["capacity"], f(s["stack"]),
         s["kill_at"], s["max_iters"], s.get("track_order", 0), f(s.get("fixed_limit", 0.0)),
+        int(s.get("disable_integral_xs", 0)), f(s.get("linear_loss_limit", 0.0)), f(s.get("lowest", 0.0)),
+        f(s.get("min_range", 0.0)), f(s.get("msc_emin", 0.0)), f(s.get("msc_xs", 0.0)),
         len(s["prims"]), " ".join(p))
 
 
@@ -351,6 +446,13 @@ def ledger_check(run):
             # at-rest process (P4's mock slowing-down): ElossApplier kills it and its 2mc^2
             # is never deposited -- exactly the case excluded by hypothesis tevent_ok of
             # the history theorems; booked separately instead of being called a leak
+            if run.spec.get("anti_at_rest"):
+                # the PROBLEM DEFINITION gives this antiparticle a process that is valid at rest
+                # (P5: real e+ annihilation): whatever the options, a stopped antiparticle must
+                # not be removed without its 2mc^2 being deposited or emitted -> a leak
+                stats["antiparticle_range_kills_with_at_rest_process"] = \
+                    stats.get("antiparticle_range_kills_with_at_rest_process", 0) + 1
+                return "dead", 0.0
             stats["antiparticle_range_kills"] += 1
             return "dead-no-at-rest", 2 * run.parts[last.particle][1]
         return "dead", 0.0
@@ -543,7 +645,8 @@ def stream_check(run):
                     add("step-count", "%s: step counter %d then %d" % (name, r.nsteps, n.nsteps), [r, n])
     # the event must drain: nothing may still be alive or queued when the loop stopped
     # (iteration budget max_iters; kill_active runs end by construction)
-    if run.exc is None and run.end is not None and (run.end[1] > 0 or run.end[2] > 0):
+    if run.exc is None and run.end is not None and (run.end[1] > 0 or run.end[2] > 0) \
+            and not run.spec.get("truncated_ok"):   # (runs with a deliberately tiny fixed step are cut off by the budget)
         stuck = [dict(slot=sl, event=ev, track=tk, particle=run.parts.get(pid, ("?",))[0], E=E, status=stt)
                  for (sl, ev, tk, pid, E, stt) in run.live][:8]
         lastrecs = []
